@@ -5,17 +5,21 @@
    covered by MAC comparisons that succeeded:
 
    (I1) read_blocks_sound        an accepted block stream IS a sequence of correctly MACed, consecutively
-                                 indexed, non-empty blocks, optionally followed by a correctly MACed empty
-                                 block after which the rest of the stream is ignored;
+                                 indexed, non-empty blocks, followed by a correctly MACed empty block (the
+                                 closing block, always present) after which the rest of the stream is ignored;
+        read_blocks_needs_closing_block
+                                 conversely a sequence of correctly MACed, consecutively indexed, non-empty
+                                 blocks that is NOT followed by a closing block is never accepted: a stream
+                                 cut at a block boundary (in particular the empty stream) is rejected;
    (I2) write_blocks_frames      the honest stream in the same vocabulary;
    (I3) decrypt4_accept_inv      an accepted file has its header hash and header MAC verified over exactly
                                  the bytes parse_outer_header consumed, its stream accepted by read_blocks,
                                  and the result is a function (open_payload) of the header and that payload;
    (I4) accepted_stream_classification / altered_stream_is_forgery / altered_file_is_forgery
                                  an accepted stream (file) under the honest key is the honest stream (plus
-                                 ignored trailing bytes), or the honest stream cut at a block boundary, or it
-                                 contains a MAC that verifies for an (index, size bytes, block) triple the
-                                 writer never authenticated.
+                                 ignored trailing bytes), or it contains a MAC that verifies for an
+                                 (index, size bytes, block) triple the writer never authenticated.  There is
+                                 no third case: the honest stream cut at a block boundary is not accepted.
 
    Formulation of a frame: the four size bytes are those READ from the stream ([sb], with
    [length sb = 4] and [le_dec sb = N.of_nat (length b)]), not a re-encoding of the length; nothing is
@@ -128,36 +132,32 @@ Section block_integrity.
       + exact H.
   Qed.
 
-  (* (I1) soundness of the block reader *)
+  (* (I1) soundness of the block reader: the closing block is always there *)
   Theorem read_blocks_sound : forall fuel idx stream key out res,
     read_blocks fuel idx stream key out = Ok res ->
-    exists blocks tail,
+    exists blocks rest,
       res = out ++ concat (map snd blocks)
       /\ Forall (fun p => sized p /\ snd p <> []) blocks
-      /\ stream = frames idx key blocks ++ tail
-      /\ (tail = [] \/
-          exists rest, tail = frame (idx + N.of_nat (length blocks)) key (le_enc 4 0) [] ++ rest).
+      /\ stream = frames idx key blocks
+                  ++ frame (idx + N.of_nat (length blocks)) key (le_enc 4 0) [] ++ rest.
   Proof.
     induction fuel as [|f IH]; intros idx stream key out res H; [discriminate H|].
     destruct stream as [|x r] eqn:Es.
-    - cbn [Kdbx4.read_blocks] in H. apply Ok_inj in H. subst res.
-      exists [], []. cbn [map concat frames app]. rewrite app_nil_r.
-      repeat split; [constructor|left; reflexivity].
+    - cbn [Kdbx4.read_blocks] in H. discriminate H.
     - rewrite <- Es in *. assert (Hne : stream <> []) by (rewrite Es; discriminate). clear Es x r.
       destruct (read_blocks_head f idx stream key out res Hne H)
         as (sb & b & rest & Hs & Hsb & Hdec & [[Eb Er]|[Eb Hrec]]).
-      + subst b res. exists [], stream. cbn [map concat frames app length N.of_nat].
+      + subst b res. exists [], rest. cbn [map concat frames app length N.of_nat].
         rewrite app_nil_r, N.add_0_r. repeat split; [constructor|].
-        right. exists rest. cbn [length N.of_nat] in Hdec.
+        cbn [length N.of_nat] in Hdec.
         rewrite <- (le_dec_zero4 sb Hsb Hdec). exact Hs.
-      + destruct (IH _ _ _ _ _ Hrec) as (blocks & tail & Hres & Hall & Hst & Htail).
-        exists ((sb, b) :: blocks), tail. cbn [map concat frames fst snd length].
-        split; [|split; [|split]].
+      + destruct (IH _ _ _ _ _ Hrec) as (blocks & rest' & Hres & Hall & Hst).
+        exists ((sb, b) :: blocks), rest'. cbn [map concat frames fst snd length].
+        split; [|split].
         * rewrite Hres. rewrite <- app_assoc. reflexivity.
         * constructor; [|exact Hall]. cbn [fst snd]. split; [split; assumption|exact Eb].
-        * rewrite Hs, Hst. rewrite <- app_assoc. reflexivity.
-        * destruct Htail as [Ht|[rest' Ht]]; [left; exact Ht|right].
-          exists rest'. rewrite Ht. rewrite Nat2N.inj_succ, <- N.add_1_l, N.add_assoc. reflexivity.
+        * rewrite Hs, Hst. rewrite <- !app_assoc.
+          rewrite Nat2N.inj_succ, <- N.add_1_l, N.add_assoc. reflexivity.
   Qed.
 
   (* for a stream of real bytes the size bytes are the encoding of the block length, which is < 2^32 *)
@@ -185,21 +185,91 @@ Section block_integrity.
   Corollary read_blocks_sound_bytes fuel idx stream key out res :
     bytes_ok stream = true ->
     read_blocks fuel idx stream key out = Ok res ->
-    exists blocks tail,
+    exists blocks rest,
       res = out ++ concat (map snd blocks)
       /\ Forall (fun p => snd p <> [] /\ N.of_nat (length (snd p)) < 2 ^ 32
                           /\ fst p = le_enc 4 (N.of_nat (length (snd p)))) blocks
-      /\ stream = frames idx key blocks ++ tail
-      /\ (tail = [] \/
-          exists rest, tail = frame (idx + N.of_nat (length blocks)) key (le_enc 4 0) [] ++ rest).
+      /\ stream = frames idx key blocks
+                  ++ frame (idx + N.of_nat (length blocks)) key (le_enc 4 0) [] ++ rest.
   Proof.
-    intros Hok H. destruct (read_blocks_sound _ _ _ _ _ _ H) as (blocks & tail & Hres & Hall & Hst & Htail).
-    exists blocks, tail. repeat (split; [try assumption|]); [|exact Htail].
-    rewrite Hst in Hok. pose proof (frames_bytes_ok key blocks idx tail Hok) as Hbo.
+    intros Hok H. destruct (read_blocks_sound _ _ _ _ _ _ H) as (blocks & rest & Hres & Hall & Hst).
+    exists blocks, rest. split; [exact Hres|]. split; [|exact Hst].
+    rewrite Hst in Hok. pose proof (frames_bytes_ok key blocks idx _ Hok) as Hbo.
     rewrite Forall_forall in *. intros [sb b] Hin. specialize (Hall _ Hin). specialize (Hbo _ Hin).
     cbn [fst snd] in *. destruct Hall as [Hsz Hne].
     destruct (sized_bytes sb b Hbo Hsz) as [Hsb Hlt]. repeat split; assumption.
   Qed.
+
+  (* ---------- the converse: without the closing block nothing is accepted ---------- *)
+  Theorem read_blocks_empty_stream fuel idx key out res : read_blocks fuel idx [] key out <> Ok res.
+  Proof. destruct fuel as [|f]; cbn [Kdbx4.read_blocks]; discriminate. Qed.
+
+  Section cut_stream.
+    (* HMAC-SHA-256 produces 32 bytes; the reader slices the MAC off by that size *)
+    Hypothesis hmac256_length : forall k m, length (hmac256 k m) = 32%nat.
+
+    (* the reader's step on a stream that begins with a correct frame *)
+    Lemma read_blocks_frame f idx sb b key out rest :
+      length sb = 4%nat -> le_dec sb = N.of_nat (length b) ->
+      read_blocks (S f) idx (frame idx key sb b ++ rest) key out =
+      if N.eqb (N.of_nat (length b)) 0 then Ok out else read_blocks f (idx + 1) rest key (out ++ b).
+    Proof.
+      intros Hsb Hdec. unfold frame. rewrite <- !app_assoc.
+      set (mac := block_mac idx key sb b).
+      assert (Hmac : length mac = 32%nat) by (apply block_mac_length; exact hmac256_length).
+      assert (Hlen : length (mac ++ sb ++ b ++ rest) = (36 + length b + length rest)%nat).
+      { rewrite !app_length. lia. }
+      rewrite read_blocks_unfold by (intro E; rewrite E in Hlen; cbn [length] in Hlen; lia).
+      rewrite Hlen.
+      replace (Nat.ltb (36 + length b + length rest) 36) with false by (symmetry; apply Nat.ltb_ge; lia).
+      assert (Hd36 : drop 36 (mac ++ sb ++ b ++ rest) = b ++ rest).
+      { rewrite app_assoc. apply drop_app_len. rewrite app_length. lia. }
+      rewrite Hd36. rewrite (take_app_len 32 mac) by exact Hmac. rewrite (drop_app_len 32 mac) by exact Hmac.
+      rewrite (take_app_len 4 sb) by exact Hsb.
+      rewrite Hdec. rewrite fits_app. cbn [negb]. rewrite Nat2N.id.
+      rewrite take_app_exact, drop_app_exact. fold mac. rewrite bytes_eqb_refl. cbn [negb]. reflexivity.
+    Qed.
+
+    (* correctly MACed, consecutively indexed, non-empty blocks and then the end of the data: the reader
+       consumes every block and then fails (or runs out of fuel before it gets there) *)
+    Theorem read_blocks_cut : forall blocks,
+      Forall (fun p => sized p /\ snd p <> []) blocks ->
+      forall fuel idx key out,
+        read_blocks fuel idx (frames idx key blocks) key out =
+        if Nat.ltb (length blocks) fuel then Err EBlockHash else OutOfFuel.
+    Proof.
+      induction blocks as [|[sb b] r IH]; intros Hall fuel idx key out.
+      - cbn [frames length]. destruct fuel as [|f]; reflexivity.
+      - inversion Hall as [|p l [[Hsb Hdec] Hne] Hall']; subst p l. cbn [fst snd] in Hsb, Hdec, Hne.
+        cbn [frames fst snd length]. destruct fuel as [|f]; [reflexivity|].
+        rewrite (read_blocks_frame f idx sb b key out _ Hsb Hdec).
+        replace (N.eqb (N.of_nat (length b)) 0) with false
+          by (symmetry; apply N.eqb_neq; destruct b as [|y b']; [congruence|cbn [length]; lia]).
+        rewrite (IH Hall' f (idx + 1) key (out ++ b)). reflexivity.
+    Qed.
+
+    (* so a stream of correctly authenticated data blocks cut before its closing block is never accepted *)
+    Theorem read_blocks_needs_closing_block blocks fuel idx key out res :
+      Forall (fun p => sized p /\ snd p <> []) blocks ->
+      read_blocks fuel idx (frames idx key blocks) key out <> Ok res.
+    Proof.
+      intros Hall H. rewrite (read_blocks_cut blocks Hall) in H.
+      destruct (Nat.ltb (length blocks) fuel); discriminate H.
+    Qed.
+
+    (* in particular the honest stream without its closing block *)
+    Corollary honest_stream_cut_is_rejected fuel key ct res :
+      ct <> [] -> N.of_nat (length ct) < 2 ^ 32 ->
+      read_blocks fuel 0 (frame 0 key (le_enc 4 (N.of_nat (length ct))) ct) key [] <> Ok res.
+    Proof.
+      intros Hct Hlt.
+      pose proof (read_blocks_needs_closing_block [(le_enc 4 (N.of_nat (length ct)), ct)] fuel 0 key [] res) as H.
+      cbn [frames fst snd] in H. rewrite app_nil_r in H. apply H.
+      constructor; [|constructor]. cbn [fst snd]. split; [split|exact Hct]; cbn [fst snd].
+      - apply le_enc_length.
+      - apply le_dec_enc4. exact Hlt.
+    Qed.
+  End cut_stream.
 
   (* ---------- (I2) the honest stream in the same vocabulary ---------- *)
   (* the (index, size bytes, block) triples whose MAC the writer computes for payload [data] *)
@@ -258,19 +328,16 @@ Section block_integrity.
   Theorem accepted_stream_classification fuel stream' key ct enc :
     read_blocks fuel 0 stream' key [] = Ok enc ->
     Forgery key (honest_triples ct) stream'
-    \/ (stream' = [] /\ enc = [])
-    \/ (ct <> [] /\ enc = ct /\ stream' = frame 0 key (le_enc 4 (N.of_nat (length ct))) ct)
     \/ (enc = ct /\ exists rest, stream' = write_blocks ct key ++ rest).
   Proof.
-    intro H. destruct (read_blocks_sound _ _ _ _ _ _ H) as (blocks & tail & Hres & Hall & Hst & Htail).
+    intro H. destruct (read_blocks_sound _ _ _ _ _ _ H) as (blocks & rest & Hres & Hall & Hst).
     cbn [app] in Hres.
     destruct blocks as [|[sb b] r].
     - (* no data block *)
       cbn [map concat frames app length N.of_nat] in *. subst enc stream'.
-      destruct Htail as [->|[rest ->]]; [right; left; split; reflexivity|].
       change (0 + 0) with 0.
       destruct (bytes_eq_dec ct []) as [->|Hct].
-      + right; right; right. split; [reflexivity|]. exists rest. rewrite write_blocks_empty. reflexivity.
+      + right. split; [reflexivity|]. exists rest. rewrite write_blocks_empty. reflexivity.
       + left. apply (forgery_at key _ 0 (le_enc 4 0) [] [] rest).
         rewrite (honest_triples_ne ct Hct). cbn [In].
         intros [E|[E|[]]]; [|discriminate E]. injection E as _ Eb. congruence.
@@ -278,7 +345,7 @@ Section block_integrity.
       cbn [frames fst snd] in Hst. change (0 + 1) with 1 in Hst.
       destruct (in_dec triple_eq_dec (0, sb, b) (honest_triples ct)) as [Hin|Hnin].
       2:{ left. subst stream'. rewrite <- app_assoc.
-          apply (forgery_at key _ 0 sb b [] (frames 1 key r ++ tail)). exact Hnin. }
+          apply (forgery_at key _ 0 sb b [] _). exact Hnin. }
       destruct (bytes_eq_dec ct []) as [->|Hct].
       { cbn [honest_triples In] in Hin. destruct Hin as [E|[]]. injection E as _ Eb. congruence. }
       rewrite (honest_triples_ne ct Hct) in Hin. cbn [In] in Hin.
@@ -286,50 +353,41 @@ Section block_integrity.
       assert (Esb : sb = le_enc 4 (N.of_nat (length ct))) by congruence.
       assert (Eb : b = ct) by congruence. clear E. subst sb b.
       destruct r as [|[sb2 b2] r2].
-      + (* exactly the honest data block *)
-        cbn [map concat frames app snd] in Hres, Hst, Htail. rewrite app_nil_r in Hres. subst enc.
-        right; right.
-        destruct Htail as [->|[rest ->]].
-        * left. split; [exact Hct|]. split; [reflexivity|]. rewrite !app_nil_r in Hst. exact Hst.
-        * right. split; [reflexivity|]. exists rest. cbn [length N.of_nat] in Hst. change (0 + 1) with 1 in Hst.
-          rewrite write_blocks_frames by exact Hct. cbn [frames fst snd]. rewrite app_nil_r.
-          rewrite Hst. rewrite <- !app_assoc. reflexivity.
+      + (* exactly the honest data block, and the closing block *)
+        cbn [map concat frames app snd] in Hres, Hst. rewrite app_nil_r in Hres. subst enc.
+        right. split; [reflexivity|]. exists rest. cbn [length N.of_nat] in Hst. change (0 + 1) with 1 in Hst.
+        rewrite write_blocks_frames by exact Hct. cbn [frames fst snd]. rewrite app_nil_r.
+        rewrite Hst. rewrite <- !app_assoc. reflexivity.
       + (* a second data block: index 1 with a non-empty block was never authenticated *)
         left. inversion Hall' as [|p l [_ Hne2] _]; subst p l. cbn [snd] in Hne2.
         subst stream'. cbn [frames fst snd]. rewrite <- !app_assoc.
-        apply (forgery_at key _ 1 sb2 b2 (frame 0 key (le_enc 4 (N.of_nat (length ct))) ct)
-                          (frames (1 + 1) key r2 ++ tail)).
+        apply (forgery_at key _ 1 sb2 b2 (frame 0 key (le_enc 4 (N.of_nat (length ct))) ct) _).
         rewrite (honest_triples_ne ct Hct). cbn [In].
         intros [E|[E|[]]]; [discriminate E|]. injection E as _ Eb. congruence.
   Qed.
 
-  (* the reduction: a payload that differs from the honest one is the honest stream cut before its first
-     block (the empty stream), or the stream exhibits a forgery *)
+  (* the reduction: a payload that differs from the honest one means the stream exhibits a forgery *)
   Corollary altered_stream_is_forgery fuel stream' key ct enc :
     read_blocks fuel 0 stream' key [] = Ok enc ->
     enc <> ct ->
-    (stream' = [] /\ enc = []) \/ Forgery key (honest_triples ct) stream'.
+    Forgery key (honest_triples ct) stream'.
   Proof.
     intros H Hne.
-    destruct (accepted_stream_classification fuel stream' key ct enc H) as [F|[T|[(_ & E & _)|(E & _)]]];
-      [right; exact F|left; exact T|contradiction|contradiction].
+    destruct (accepted_stream_classification fuel stream' key ct enc H) as [F|(E & _)];
+      [exact F|contradiction].
   Qed.
 
-  (* and a stream that differs from the honest one but yields the same payload is the honest stream without
-     its closing block, or with ignored bytes after it, or again exhibits a forgery *)
+  (* and a stream that differs from the honest one but yields the same payload is the honest stream with
+     ignored bytes after its closing block, or again exhibits a forgery *)
   Corollary altered_stream_same_payload fuel stream' key ct :
     read_blocks fuel 0 stream' key [] = Ok ct ->
     Forgery key (honest_triples ct) stream'
-    \/ (ct = [] /\ stream' = [])
-    \/ (ct <> [] /\ stream' = frame 0 key (le_enc 4 (N.of_nat (length ct))) ct)
     \/ (exists rest, stream' = write_blocks ct key ++ rest).
   Proof.
     intro H.
-    destruct (accepted_stream_classification fuel stream' key ct ct H) as [F|[[T E]|[(N & _ & S)|(_ & S)]]].
+    destruct (accepted_stream_classification fuel stream' key ct ct H) as [F|(_ & S)].
     - left; exact F.
-    - right; left. split; [exact E|exact T].
-    - right; right; left. split; assumption.
-    - right; right; right. exact S.
+    - right. exact S.
   Qed.
 End block_integrity.
 
@@ -436,8 +494,6 @@ Section file_integrity.
               (mkOuter (c_outer cfg) (c_compression cfg) (d_master_seed d) (d_iv d) (c_kdf cfg) (d_kdf_seed d))
               t enc = Ok r'
          /\ (Forgery hk (honest_triples ct) stream'
-             \/ (stream' = [] /\ enc = [])
-             \/ (ct <> [] /\ enc = ct /\ stream' = frame 0 hk (le_enc 4 (N.of_nat (length ct))) ct)
              \/ (enc = ct /\ exists rest, stream' = write_blocks ct hk ++ rest)).
   Proof.
     intros Hver Hminor Hdraws Hperm Hkdf Hdump header Hhead Hacc.
@@ -462,8 +518,8 @@ Section file_integrity.
     exact (accepted_stream_classification sha512 hmac256 _ _ _ ct enc Hrd).
   Qed.
 
-  (* the headline: an accepted file with the honest header that opens DIFFERENTLY from what was written has
-     lost its whole block stream, or carries a forged block MAC *)
+  (* the headline: an accepted file with the honest header that opens DIFFERENTLY from what was written
+     carries a forged block MAC *)
   Section headline.
     Hypothesis dec_enc : forall c key iv p ct, outer_enc c key iv p = Ok ct -> outer_dec c key iv ct = Ok p.
     Hypothesis decompress_compress : forall z p c, compress z p = Ok c -> decompress z c = Ok p.
@@ -486,8 +542,7 @@ Section file_integrity.
         /\ outer_enc (c_outer cfg) (master_key_of (d_master_seed d) t) (d_iv d) p = Ok ct
         /\ let hk := hmac_key_of (d_master_seed d) t in
            f = header ++ sha256 header ++ header_mac hk header ++ write_blocks ct hk
-           /\ (drop (length header + 64) f' = []
-               \/ Forgery hk (honest_triples ct) (drop (length header + 64) f')).
+           /\ Forgery hk (honest_triples ct) (drop (length header + 64) f').
     Proof.
       intros Hver Hminor Hdraws Hperm Hkdf Hatts Hdump header Hhead Hacc Hdiff.
       destruct (header_conditions cfg d vd Hdraws Hkdf Hperm) as (Hiv & Hms & Hvl & Hvok & Hik).
@@ -508,10 +563,8 @@ Section file_integrity.
         rewrite Eik in Hopen. cbn [negb] in Hopen. apply Ok_inj in Hopen. rewrite <- Hopen.
         destruct cfg as [ver oc zc ic kc]. cbn [c_version c_outer c_compression c_inner c_kdf] in *.
         rewrite Hver. reflexivity. }
-      destruct Hclass as [F|[[T _]|[(_ & E & _)|(E & _)]]].
-      - right. exact F.
-      - left. exact T.
-      - contradiction.
+      destruct Hclass as [F|(E & _)].
+      - exact F.
       - contradiction.
     Qed.
 
@@ -539,7 +592,7 @@ Section file_integrity.
            /\ (h_kdf h = c_kdf cfg -> h_kdf_seed h = d_kdf_seed d -> h_master_seed h = d_master_seed d ->
                (take hlen f' <> header /\ take 32 (drop (hlen + 32) f') = header_mac hk (take hlen f'))
                \/ (take hlen f' = header
-                   /\ (drop (hlen + 64) f' = [] \/ Forgery hk (honest_triples ct) (drop (hlen + 64) f')))).
+                   /\ Forgery hk (honest_triples ct) (drop (hlen + 64) f'))).
     Proof.
       intros Hver Hminor Hdraws Hperm Hkdf Hatts Hdump header Hacc Hdiff.
       destruct (dump4_inv sha256 sha512 hmac256 kdf outer_enc compress cfg d vd els atts xml f minor Hver Hdump)
@@ -572,9 +625,14 @@ End file_integrity.
 
 Print Assumptions read_blocks_sound.
 Print Assumptions read_blocks_sound_bytes.
+Print Assumptions read_blocks_empty_stream.
+Print Assumptions read_blocks_cut.
+Print Assumptions read_blocks_needs_closing_block.
+Print Assumptions honest_stream_cut_is_rejected.
 Print Assumptions write_blocks_frames.
 Print Assumptions accepted_stream_classification.
 Print Assumptions altered_stream_is_forgery.
+Print Assumptions altered_stream_same_payload.
 Print Assumptions decrypt4_accept_inv.
 Print Assumptions altered_header_is_forgery.
 Print Assumptions altered_file_classification.
